@@ -5,7 +5,7 @@
    line-by-line codec emits; a rejected line fails every compiler.
    ExecuteBatch enters through execute_batch_perkey of Proofs/Batch.v (C15).
    (This file is called CompilePipe because Proofs/Compile.v belongs to another slice.) *)
-From DnsV Require Import Model.Compile Spec.MapOfLists Proofs.MultiValue Proofs.MapOfLists Proofs.BytesOrder Proofs.Batch.
+From DnsV Require Import Model.Compile Spec.MapOfLists Proofs.MultiValue Proofs.MapOfLists Proofs.KeyOrder Proofs.Batch.
 From Coq Require Import Permutation Sorted ZifyN ZifyNat ZifyBool.
 Open Scope N_scope.
 
